@@ -1051,6 +1051,12 @@ def parseInt0 (s : List Char) (bits : Nat) : Option Int :=
       else if neg ∧ un > cutoff then none
       else some (if neg then -(un : Int) else (un : Int))
 
+/-- `common.IsValidHttpMethod`: the exact (case-sensitive) word list -/
+def validHttpMethod (v : List Char) : Bool :=
+  let s := String.ofList v
+  s = "GET" || s = "POST" || s = "PUT" || s = "PATCH" || s = "DELETE" || s = "COPY" || s = "HEAD" || s = "OPTIONS" ||
+  s = "LINK" || s = "UNLINK" || s = "PURGE" || s = "LOCK" || s = "UNLOCK" || s = "PROPFIND" || s = "CONNECT" || s = "TRACE"
+
 inductive DecSpec where
   | str | bool | int (bits : Nat) | uint (bits : Nat) | oracle
   deriving Repr
